@@ -389,7 +389,7 @@ Qed.
 (* the run-time meaning of a nonnil->nonnil contract: started with a non-nil argument (whatever the package-level
    variables hold and the opaque conditions answer), the function returns a non-nil value *)
 Definition contract_true (prog : program) (fd : func) : Prop :=
-  forall fuel gs oracle,
+  forall fuel gs oracle, (forall x, sget gs (VL x) = VNil) ->
     match exec prog fuel (f_body fd) (bind_params 0 [VPtr] ++ gs) oracle with
     | OReturn v _ _ => v = VPtr
     | ONormal _ _ => False
@@ -712,7 +712,8 @@ Section Sound.
         assert (Hcp : eval_atom s a0 = VNil -> nu (SCallParam h cs)).
         { intros Hv. pose proof (arg_site g c s e h cs [a0] 0 a0 Hr Hargs Hoks Hus eq_refl Hv) as A.
           unfold call_param_site in A. now rewrite Ech in A. }
-        pose proof (Hct fuel (globals_of s) oracle) as Hcontract.
+        assert (Hgl : forall x0, sget (globals_of s) (VL x0) = VNil) by (intros x0; unfold globals_of; now rewrite sget_filter with (P := is_glob)).
+        pose proof (Hct fuel (globals_of s) oracle Hgl) as Hcontract.
         destruct (exec prog fuel (f_body fd) (bind_params 0 [eval_atom s a0] ++ globals_of s) oracle) as [s' o'|v s' o'|d|] eqn:Ex; auto.
         * (* fell off the end: result nil *)
           destruct R as [[e' [Heq _]] HG']. destruct (after_call g c s s' e Hr HG') as [A1 A2].
